@@ -10,7 +10,10 @@ Line-protocol driver for C19 (group chain). One op per line:
   rmto <h>                           removeFromCommonAncestor(GroupHeight = h)
   restart                            drop memory, run start-up on the store
   crash <k> add …|rmlast|rmto <h>    the op with only k physical writes let through, then restart
+  forkput <key>                      Put(key, 0x01) on the store with prefix "groupFork" (shared key space)
+  cadd <id> <pre> <parent> <create>  AddGroup that ran concurrently with another one (answer: result only)
   count | last | byheight <i> | byid <x> | iter | sync <x> | syncat <h> <n> | dump | mirror
+  below <x> (getFirstGroupBelowHeight) | top (height())
 
 Answers: see `harness/cmd/c19/main.go` (same formats, produced from the real code).
 -/
@@ -127,6 +130,15 @@ def mutate (s : DState) (c : Chain) (ws : List String) (budget : Option Nat) : O
     else
     let (r, run) := addB c g k
     pure (afterRun s (addResStr r) run)
+  | ["cadd", a, b, p, cr], none => do
+    -- one of two concurrent AddGroup calls, reported by the harness in the sequential order that
+    -- explains their results: replayed here one after the other (answer = result only)
+    let g ← parseGroup4 a b p cr
+    if addCheck c g = .ok ∧ c.count ≥ 9223372036854775808 then
+      pure ({ s with boot := none }, "unmodelled")
+    else
+    let (r, c') := addGroup c g
+    pure ({ s with boot := some (.alive c') }, if r = .ok then "ok" else "rejected")
   | ["rmlast"], none =>
     let (r, c') := remove c c.last
     some ({ s with boot := some (.alive c') }, toString r ++ " " ++ status c')
@@ -164,12 +176,33 @@ def query (c : Chain) : List String → Option String
     let h ← parseNat? h
     let n ← parseNat? n
     pure (listStr ((syncFrom c.disk h n).map ogstr))
+  | ["below", x] => do
+    let x ← parseNat? x
+    pure (if (iterList c).length > c.disk.length then "LOOP" else ogstr (firstBelow c x))
+  | ["top"] => some (toString (topHeight c))
   | ["dump"] => some (dumpStr c.disk)
   | ["mirror"] => some (mirrorStr c.mirror)
   | _ => none
 
+/-- `bootcrash <k1> <k2|-> <genesis…>`: wipe; first start-up cut after `k1` writes; if the store
+    then still has no last-group pointer and `k2` is given, the next start-up (genesis branch
+    again) is cut after `k2` writes; finally a start-up that runs to the end. -/
+def bootCrash (gs : List Group) (k1 : Nat) (k2 : Option Nat) : DState × String :=
+  let s0 : DState := { boot := none, genesis := gs }
+  match firstBootB [] [] gs k1 with
+  | none => (s0, "unmodelled")
+  | some (.done c _) => afterRun s0 "done" (.done c 0)
+  | some (.crashed d1 m1) =>
+    match k2, firstBootB d1 m1 gs (k2.getD 0) with
+    | some _, some (.done c _) => afterRun s0 "crashed done" (.done c 0)
+    | some _, some (.crashed d2 m2) =>
+      let (s', r) := afterRun s0 "" (.crashed d2 m2)
+      (s', if r == "unmodelled" then r else "crashed " ++ r)
+    | _, _ => afterRun s0 "" (.crashed d1 m1)
+
 def isMutator : List String → Bool
   | "add" :: _ => true
+  | "cadd" :: _ => true
   | "rmlast" :: _ => true
   | "rmto" :: _ => true
   | _ => false
@@ -182,6 +215,10 @@ def step (s : DState) (line : String) : DState × String :=
     | some gs =>
       let b := restart [] [] gs
       ({ boot := b, genesis := gs }, bootStr b)
+  | "bootcrash" :: k1 :: k2 :: toks =>
+    match parseNat? k1, (if k2 == "-" then some none else (parseNat? k2).map some), parseAll parseGenesis toks with
+    | some k1, some k2, some (g :: gs) => bootCrash (g :: gs) k1 k2
+    | _, _, _ => (s, "bad-op")
   | ws =>
     match s.boot with
     | none => (s, if ws.isEmpty then "bad-op" else "unmodelled")
@@ -195,6 +232,14 @@ def step (s : DState) (line : String) : DState × String :=
         if preCycle c.disk then ({ s with boot := none }, "unmodelled") else
         let b := restart c.disk c.mirror s.genesis
         ({ s with boot := b }, bootStr b)
+      | ["forkput", k] =>
+        -- a write of the group FORK database (store prefix "groupFork") seen from the chain's store
+        -- (prefix "group"): the raw key "Fork" ++ k
+        match ofHex? k with
+        | none => (s, "bad-op")
+        | some kb =>
+          let c' := { c with disk := sput c.disk ([0x46, 0x6f, 0x72, 0x6b] ++ kb) (.ref [1]) }
+          ({ s with boot := some (.alive c') }, "ok")
       | "crash" :: k :: rest =>
         match parseNat? k with
         | none => (s, "bad-op")
